@@ -6,8 +6,10 @@ import common, lbtool
 def run_shard(binary, wd, seed, seqs, nops, mode, extra=()):
     os.makedirs(wd, exist_ok=True)
     ops = os.path.join(wd, 'ops'); impl = os.path.join(wd, 'impl'); model = os.path.join(wd, 'model'); spec = os.path.join(wd, 'spec')
-    subprocess.run([binary, '-seed', str(seed), '-seqs', str(seqs), '-ops', str(nops), '-mode', mode,
-                    '-ops-out', ops, '-impl-out', impl, *extra], check=True, timeout=3600)
+    p = subprocess.run([binary, '-seed', str(seed), '-seqs', str(seqs), '-ops', str(nops), '-mode', mode,
+                        '-ops-out', ops, '-impl-out', impl, *extra], timeout=3600)
+    if p.returncode not in (0, 3):     # 3 = watchdog: an op never returned ("hang" is the last reply line)
+        raise RuntimeError('lbdiff exit %d' % p.returncode)
     with open(ops) as i, open(model, 'w') as o:
         subprocess.run([common.DRIVER, 'lb'], stdin=i, stdout=o, check=True, timeout=3600)
     with open(spec, 'w') as o:
@@ -47,7 +49,9 @@ def analyse(wd, mode):
         if sp.startswith('X'): res['out_contract'] += 1
         elif 'OK' in sp or sp == 'new': res['in_contract'] += 1
         kind = None
-        if 'IMPL-SPEC-FAIL' in sp:
+        if impl[i] == 'hang':
+            kind = 'impl-violates-spec'
+        elif 'IMPL-SPEC-FAIL' in sp:
             kind = 'impl-violates-spec'
         elif 'MODEL-SPEC-FAIL' in sp or 'MODEL-PANIC-IN-CONTRACT' in sp:
             kind = 'model-violates-spec'
